@@ -1,4 +1,5 @@
 import PaneModel.Lemmas.RoundTripExt
+import PaneModel.Props.C03
 /-!
 # C05 — serialise / parse round trip
 
@@ -424,5 +425,13 @@ end Examples
 #print axioms C05_N2_unhashable_key
 #print axioms C05_N3_set_record
 #print axioms extRT_ok
+
+/-- **the guards hold on the current source.**  A member of a union that refuses a value must do so by a parse failure
+(`ParseInterrupt`), never by letting its constructor's exception escape: the round trip through a union goes on to the next
+member only then.  `GuardsCover` (every guarded site catches what it must, read from the source by the translator) is the
+same obligation as C03's and C04's; it is restated here because a round trip that dies in a constructor is not a round trip. -/
+theorem C05_guards : GuardsCover = true := C03_guards
+
+#print axioms C05_guards
 
 end PaneModel
